@@ -58,6 +58,7 @@ type Exec struct {
 	inlined   map[string]bool
 	assumed   map[string]bool // external contracts used
 	havocked  map[string]bool // external calls without contract
+	rebound   map[string]bool // locals named in clauses that were re-bound through their fingerprint
 	entry     *State          // snapshot for old()
 	params    map[string]Value
 	loops     map[*ssa.Function]*loopInfo
@@ -76,7 +77,7 @@ type Exec struct {
 
 func NewExec(w *World, fn *ssa.Function, spec *FuncSpec) *Exec {
 	return &Exec{w: w, top: fn, spec: spec, names: map[string]int{}, locIDs: map[string]*Term{}, locBack: map[string]*Loc{},
-		cloBack: map[string]*Closure{}, maxPaths: 4096, inlined: map[string]bool{}, assumed: map[string]bool{}, havocked: map[string]bool{},
+		cloBack: map[string]*Closure{}, maxPaths: 4096, inlined: map[string]bool{}, assumed: map[string]bool{}, havocked: map[string]bool{}, rebound: map[string]bool{},
 		loops: map[*ssa.Function]*loopInfo{}, iterSites: map[*ssa.Function]int{}, exitBound: map[string]bool{}, iterSeen: map[int]bool{}, backing: map[string]*backingInfo{}}
 }
 
@@ -360,8 +361,25 @@ func (x *Exec) setVal(s *State, fr *Frame, v ssa.Value, val Value) {
 		if f := RangeFact(v.Type(), val.Term); f != nil && needsRange(val.Term) {
 			s.assume(f)
 		}
+		x.noteRuntimeLen(s, v.Type(), val.Term)
 	}
 	fr.vals[v] = val
+}
+
+// noteRuntimeLen: a slice or string that exists at run time has a length within the address space (assumption;
+// deliberately not a universal axiom, see the note in world.go).
+func (x *Exec) noteRuntimeLen(s *State, t types.Type, term *Term) {
+	if term == nil || !(term.K == KVar || term.K == KApp) || term.IsLit() {
+		return
+	}
+	switch u := types.Unalias(t).Underlying().(type) {
+	case *types.Slice:
+		s.assume(Le(x.w.SlLen(term), lenBound))
+	case *types.Basic:
+		if u.Info()&types.IsString != 0 {
+			s.assume(Le(x.w.Reg.Apply("strlen", term), lenBound))
+		}
+	}
 }
 
 func needsRange(t *Term) bool {
@@ -1273,6 +1291,15 @@ func (x *Exec) doReturn(s *State, fr *Frame, rs []Value, in *ssa.Return) bool {
 	if fr.iter != nil {
 		return x.iterHandlerReturned(s, caller, fr, rs)
 	}
+	// keep the helper's named locals reachable for exit clauses of the caller (code moved into a helper)
+	ret := append([]retiredLocal{}, caller.retired...)
+	ret = append(ret, fr.retired...)
+	for _, a := range namedAllocs(fr.fn) {
+		if pv, ok := fr.vals[a]; ok {
+			ret = append(ret, retiredLocal{name: a.Comment, typ: allocTypeString(a), ptr: pv})
+		}
+	}
+	caller.retired = ret
 	call := fr.callSite
 	if call != nil {
 		if v := call.Value(); v != nil {
@@ -1288,8 +1315,14 @@ func (x *Exec) bindResult(s *State, fr *Frame, v *ssa.Call, rs []Value) {
 	case 1:
 		r := rs[0]
 		r.T = v.Type()
+		x.noteRuntimeLen(s, r.T, r.Term)
 		fr.vals[v] = r
 	default:
+		for _, r := range rs {
+			if r.T != nil {
+				x.noteRuntimeLen(s, r.T, r.Term)
+			}
+		}
 		fr.vals[v] = Value{T: v.Type(), Tup: rs}
 	}
 }
